@@ -287,18 +287,17 @@ pub fn cci_ref(bars: &[RawBar], n: usize, big_since_reset: f64) -> Option<Cond> 
     let w = &bars[t - t.min(n)..];
     let tps: Vec<DD> = w.iter().map(tp_dd).collect();
     let k = tps.len() as f64;
-    let mut s = DD::ZERO;
+    let mut mean = DD::ZERO;
     let mut big = 0.0f64;
     for tp in &tps {
-        s = s.add(*tp);
+        // accumulate tp/k, not tp: the window sum itself may exceed f64::MAX for huge price units
+        mean = mean.add(tp.div_f(k));
         big = big.max(tp.to_f64().abs());
     }
-    let mean = s.div_f(k);
-    let mut a = DD::ZERO;
+    let mut mad = DD::ZERO;
     for tp in &tps {
-        a = a.add(tp.sub(mean).abs());
+        mad = mad.add(tp.sub(mean).abs().div_f(k));
     }
-    let mad = a.div_f(k);
     if mad.is_zero() || !(mad.hi > 0.0) {
         return None;
     }
